@@ -68,6 +68,14 @@ func seqField(g uint16) *PField {
 			small = pf
 		}
 	}
+	if small == nil {
+		// no unsigned integer field: an enum carries the sequence number
+		for _, pf := range prof.byMesg[g] {
+			if pf.Kind == kindNative && !pf.Array && pf.Base == 0x00 && !(g == 0 && pf.Num == 0) {
+				return pf
+			}
+		}
+	}
 	return small
 }
 
@@ -189,6 +197,9 @@ func (p *propC03) Gen(idx int) *Scenario {
 			v := uint64(seq)
 			if fd[1] == 1 {
 				v = uint64(seq%250) + 1
+				if rich && r.Bool() {
+					v = uint64(r.Intn(12)) // the low values, where enums have their named members
+				}
 			}
 			if fi > 0 && prof.Known(d.Global) {
 				// extra field of a rich scenario
